@@ -223,6 +223,80 @@ def c11_postprocess(graph, nodes):
         params['pp'] = params.get('pp', 0) + 1
 
 
+class C11Node(OptNode):
+    """a user node class with its own coders (registered after the serializer's first use)"""
+
+
+class C11Graph(OptGraph):
+    """a user graph class with an extra field and its own coders"""
+
+
+class C11Individual(Individual):
+    """a user individual class with its own coders"""
+
+
+def c11_node_to_json(obj):
+    # reversible: every parameter value is stored as a tagged JSON string
+    from golem.serializers.coders import graph_node_to_json
+    enc = graph_node_to_json(obj)
+    content = dict(enc['content'])
+    if isinstance(content.get('params'), dict):
+        content['params'] = {k: 'py:' + json.dumps(v) for k, v in content['params'].items()}
+    enc['content'] = content
+    return enc
+
+
+def c11_node_from_json(cls, json_obj):
+    from golem.serializers.any_serialization import any_from_json
+    obj = any_from_json(cls, json_obj)
+    params = obj.content.get('params')
+    if isinstance(params, dict):
+        obj.content['params'] = {k: json.loads(v[3:]) for k, v in params.items()}
+    return obj
+
+
+def c11_graph_to_json(obj):
+    from golem.serializers.any_serialization import any_to_json
+    enc = any_to_json(obj)
+    enc['label'] = enc['label'][::-1]
+    return enc
+
+
+def c11_graph_from_json(cls, json_obj):
+    from golem.serializers.coders import graph_from_json
+    obj = graph_from_json(cls, json_obj)
+    obj.label = obj.label[::-1]
+    return obj
+
+
+def c11_ind_to_json(obj):
+    from golem.serializers.any_serialization import any_to_json
+    enc = any_to_json(obj)
+    enc['metadata'] = {'packed': json.dumps(enc['metadata'])}
+    return enc
+
+
+def c11_ind_from_json(cls, json_obj):
+    from golem.serializers.any_serialization import any_from_json
+    obj = any_from_json(cls, json_obj)
+    object.__setattr__(obj, 'metadata', json.loads(obj.metadata['packed']))
+    return obj
+
+
+_USER_CODERS = [False]
+
+
+def ensure_user_coders():
+    """registers the user classes - after the serializer has been used at least once in this process"""
+    if _USER_CODERS[0]:
+        return
+    json.loads(json.dumps(OptGraph(OptNode('warm-up')), cls=Serializer), cls=Serializer)
+    Serializer.register_coders(C11Node, c11_node_to_json, c11_node_from_json)
+    Serializer.register_coders(C11Graph, c11_graph_to_json, c11_graph_from_json)
+    Serializer.register_coders(C11Individual, c11_ind_to_json, c11_ind_from_json)
+    _USER_CODERS[0] = True
+
+
 def inner_graph(graph):
     return graph.operator if isinstance(graph, OptGraph) else graph
 
@@ -231,14 +305,21 @@ def build_graph(spec):
     """spec = {'kind': 'opt'|'linked', 'nodes': [{'uid', 'content', 'parents': [idx]}], 'order': [idx]}
     returns (graph, node objects in creation order)"""
     objs = []
+    user = bool(spec.get('user'))
+    if user:
+        ensure_user_coders()
     for ns in spec['nodes']:
-        n = OptNode(copy.deepcopy(ns['content']))
+        n = (C11Node if user else OptNode)(copy.deepcopy(ns['content']))
         n.uid = ns['uid']
         objs.append(n)
     for ns, n in zip(spec['nodes'], objs):
         n.nodes_from = [objs[p] for p in ns['parents']]
     kw = {'postprocess_nodes': c11_postprocess} if spec.get('post') else {}
-    graph = OptGraph(**kw) if spec['kind'] == 'opt' else LinkedGraph(**kw)
+    if user:
+        graph = C11Graph(**kw)
+        graph.label = 'user-graph'
+    else:
+        graph = OptGraph(**kw) if spec['kind'] == 'opt' else LinkedGraph(**kw)
     graph.nodes = [objs[i] for i in spec['order']]
     return graph, objs
 
@@ -1031,16 +1112,26 @@ def known_uids(spec, ops):
 def lock_run(spec, ops, via_individual):
     """applies ops to the original and to its loaded copy; returns (vo, vl, [(op, o_view|None, l_view|None)])"""
     graph, objs = build_graph(spec)
+    ind_same = True
     if via_individual:
-        ind = Individual(graph, fitness=SingleObjFitness(1.0))
-        loaded = Individual.load(ind.save()).graph
+        icls = C11Individual if spec.get('user') else Individual
+        ind = icls(graph, fitness=SingleObjFitness(1.0), metadata={'t': 0.5, 'tags': ['a', 1]}, native_generation=3)
+        lind = Individual.load(ind.save())
+        loaded = lind.graph
+        ind_same = (type(lind) is icls and lind.metadata == ind.metadata and lind.uid == ind.uid and
+                    lind.native_generation == 3 and _try(lambda: lind.save() == ind.save()) == ('ok', True))
     else:
         loaded = json.loads(dumps(graph), cls=Serializer)
     known = known_uids(spec, ops)
     fo, fl = {}, {}
     vo, vl = view(graph, known, fo), view(loaded, known, fl)
     # before any editing: the loaded copy saves to the same text and carries the same postprocess function
-    meta_same = (_try(lambda: dumps(loaded) == dumps(graph)) == ('ok', True) and
+    meta_same = (ind_same and type(loaded) is type(graph) and
+                 _try(lambda: [type(n) for n in loaded.nodes]) == ('ok', [type(n) for n in graph.nodes]) and
+                 getattr(loaded, 'label', None) == getattr(graph, 'label', None) and
+                 _try(lambda: loaded.descriptive_id) == _try(lambda: graph.descriptive_id) and
+                 _try(lambda: (graph == loaded, loaded == graph)) == ('ok', (True, True)) and
+                 _try(lambda: dumps(loaded) == dumps(graph)) == ('ok', True) and
                  _try(lambda: inner_graph(loaded)._postprocess_nodes is inner_graph(graph)._postprocess_nodes)
                  == ('ok', True))
     steps = []
@@ -1110,7 +1201,15 @@ def gen_lock_specs(ctx):
             # half of the time: delete_node / disconnect_nodes / update_node call it
             spec['post'] = True
             spec['kind'] = rng.choice(['linked', 'opt'])
-        out.append((spec, rng.randrange(1 << 30), i % 5 == 4 and spec['kind'] == 'opt'))
+        if i % 8 == 3:
+            # user subclasses of OptNode / OptGraph / Individual with their own (reversible) coders, registered after
+            # the serializer's first use: original vs loaded copy
+            spec['user'] = True
+            spec['kind'] = 'opt'
+            for ns in nodes:
+                if rng.random() < 0.7:
+                    ns['content']['params'] = copy.deepcopy(rng.choice([p for p in PARAMS if p]))
+        out.append((spec, rng.randrange(1 << 30), (i % 5 == 4 or (i % 16 == 3)) and spec['kind'] == 'opt'))
     return out
 
 
@@ -1152,7 +1251,8 @@ def run_lockstep(ctx):
         for op, a, b in steps:
             ctx.count('lockstep', key=(view_key(vo), json.dumps(ops, sort_keys=True)), nontrivial=True, op=op[0],
                       raised=(a is None), modelled=(c_op(op, bool(spec.get('post'))) != 'OOther'),
-                      duplicate_links=dup, user_postprocess=bool(spec.get('post')), graph_class=spec['kind'])
+                      duplicate_links=dup, user_postprocess=bool(spec.get('post')), graph_class=spec['kind'],
+                      user_coders=bool(spec.get('user')), via_individual=via_ind)
         if not steps:
             ctx.count('lockstep', key=(view_key(vo), 'no-ops'), nontrivial=False, op='none')
         if not r[0]:
